@@ -563,7 +563,7 @@ Proof.
   - cbn [fst]. exact HI.
   - destruct (run tx_fuel w [(sender, MWasm target m funds)] []) as [[w' tr]|] eqn:E; cbn [fst] in *;
       [|exact HI].
-    eapply tx_rwinv; eauto.
+    exact (tx_rwinv d0 w sender target m funds w' tr Hok HE HE' HI E).
 Qed.
 
 (** C14, history level: from any world satisfying the invariant, along any history that keeps
@@ -591,4 +591,50 @@ Lemma RewardWired_cfg w r :
 Proof.
   unfold RewardWired. intros HW Hr Ho Hn. rewrite Hr in HW.
   destruct (w_disp w); [|contradiction]. destruct HW as (_ & _ & Hnin). repeat split; assumption.
+Qed.
+
+(** ** 6. a ClaimRewards transaction never fails for lack of funds *)
+Lemma debit_ok e a d x : x <= bal e a d -> exists e', debit e a d x = Some e'.
+Proof. intros H. unfold debit. apply N.leb_le in H. rewrite H. eauto. Qed.
+
+Theorem claim_tx_succeeds w r s rcp :
+  w_reward w = Some r -> RWInv w -> RBound r -> D <= acc r s ->
+  exists w',
+    step w (OTx s A_reward (WReward (RClaim rcp)) [])
+      = (w', (true, [(s, MWasm A_reward (WReward (RClaim rcp)) []);
+                     (A_reward, MBank (claim_to rcp s) [(rw_denom r, acc r s / D)])])) /\
+    w_reward w' = Some (claim_state r s) /\
+    bal (w_env w) A_reward (rw_denom r) - acc r s / D <= bal (w_env w') A_reward (rw_denom r) /\
+    (claim_to rcp s <> A_reward ->
+     bal (w_env w') A_reward (rw_denom r) = bal (w_env w) A_reward (rw_denom r) - acc r s / D /\
+     bal (w_env w') (claim_to rcp s) (rw_denom r)
+       = bal (w_env w) (claim_to rcp s) (rw_denom r) + acc r s / D).
+Proof.
+  intros Hr HI HB Hu. pose proof (HI r Hr) as HInv.
+  set (w0 := set_env w (w_env w)).
+  destruct (claim_succeeds_exact w0 r A_reward s rcp _ HInv HB Hu) as (He & H1 & Hp & Hb & _).
+  set (k := acc r s / D) in *. set (d := rw_denom r) in *. set (to := claim_to rcp s) in *.
+  assert (Hk : k <= bal (w_env w) A_reward d) by lia.
+  destruct (debit_ok (w_env w) A_reward d k Hk) as [e1 He1].
+  set (w1 := set_reward w0 (claim_state r s)).
+  assert (S1 : step_msg w s (MWasm A_reward (WReward (RClaim rcp)) [])
+               = Some (w1, [(A_reward, MBank to [(d, k)])])).
+  { unfold step_msg. cbn [send_coins foldM bind]. fold w0. unfold call.
+    change (A_reward =? A_hub) with false. change (A_reward =? A_reward) with true. cbv iota.
+    cbn [bind]. change (w_reward w0) with (w_reward w). rewrite Hr. cbn [bind].
+    rewrite He. cbn [bind fst snd map]. reflexivity. }
+  assert (S2 : step_msg w1 A_reward (MBank to [(d, k)])
+               = Some (set_env w1 (credit e1 to d k), [])).
+  { unfold step_msg, bank_send, send_coins. cbn [foldM]. unfold send_coin.
+    assert (Hnz : (k =? 0) = false) by (apply N.eqb_neq; lia). rewrite Hnz. cbn [negb].
+    change (w_env w1) with (w_env w). rewrite He1. cbn [bind]. reflexivity. }
+  exists (set_env w1 (credit e1 to d k)). split; [|split; [reflexivity|]].
+  - cbn [step]. unfold tx_fuel. rewrite run_S, S1. cbn [bind fst snd app].
+    rewrite run_S, S2. cbn [bind fst snd app]. rewrite run_nil. reflexivity.
+  - cbn [w_env set_env]. destruct (debit_spec _ _ _ _ _ He1) as (_ & Hs & Ho).
+    split.
+    + pose proof (bal_credit_ge e1 to d k A_reward d). lia.
+    + intros Hne. split.
+      * rewrite bal_credit_other by congruence. exact Hs.
+      * rewrite bal_credit_same. rewrite Ho by congruence. reflexivity.
 Qed.
